@@ -1318,9 +1318,14 @@ package yqlib
 //@   ensures implies(result == nil, nodeList(results))
 
 //@ func createTraversalTree
-//@   trusted
-//@   modifies \nothing
+//@   props C04
+//@   nosafety
+//@   flags maypanic
+//@   at createTraversalTree#1: assert @every-segment-carries-the-merge-preferences {C04} arg1 == traversePrefs && arg2 == false && len(arg0) == 1 && arg0[0] == path[0]
+//@   at createTraversalTree#2: assert @the-rest-too {C04} arg1 == traversePrefs && arg2 == targetKey && len(arg0) == len(path) - 1
 //@   ensures result != nil && fresh(result)
+//@   ensures @one-segment {C04} implies(len(path) == 1 && !targetKey, result.Operation != nil && result.Operation.OperationType == traversePathOpType && result.Operation.Preferences == iface(traversePrefs) && result.Operation.Value == path[0])
+//@   ensures @longer-paths-are-pipes {C04} implies(len(path) > 1, result.Operation != nil && result.Operation.OperationType == shortPipeOpType && result.LHS != nil && result.RHS != nil)
 
 //@ func multiplyScalars
 //@   props C11
